@@ -11,6 +11,7 @@ import shutil
 import subprocess
 import tempfile
 import time
+import unicodedata
 from pathlib import Path
 
 from .. import e2e
@@ -252,9 +253,16 @@ def campaign_module_path(ck: Check, n: int) -> None:
     camp = ck.campaign("mod.sanitize / mod.modpath vs model.base.sanitize_module_name, get_module_path, get_module_name")
     t0 = time.time()
     rng = ck.rng.fork("modpath")
-    alpha = list("abzAZ019_.-") + [" ", "é", "²", "/", "$", "class", "x.y", "__"]
+    u = unicode_classes()
+    # ASCII, and representatives of every class on which "kept in the module name", "identifier character" and
+    # "stable under the compiler's NFKC normalisation" differ (fixed ones + drawn from the interpreter's tables)
+    alpha = list("abzAZ019_.-") + [" ", "é", "²", "/", "$", "class", "x.y", "__"] + u["unstable_known"] + u["stable_known"]
+    alpha += [rng.choice(u[k]) for k in ("unstable_start", "unstable_cont", "stable_start", "stable_cont", "non_identifier") for _ in range(3)]
+    for k in ("unstable_start", "unstable_cont", "stable_start", "stable_cont", "non_identifier"):
+        camp.hit(f"alphabet:{k}", 3)
     mk = lambda k: "".join(rng.choice(alpha) for _ in range(rng.range(0, k)))
     s_cases = [(rng.chance(1, 2), mk(6)) for _ in range(n)] + [(t, s) for t in (False, True) for s in ("", "1", "class", "a.b", "a-b", ".x", "9.9")]
+    s_cases += [(False, c + "_units") for c in u["unstable_known"] + u["stable_known"]] + [(False, "x" + c) for c in u["unstable_known"]]
     replies = ck.driver.run([f"mod.sanitize {B(t)} {hx(s)}" for t, s in s_cases])
     for (t, s), rep in zip(s_cases, replies):
         camp.evaluations += 1
@@ -464,6 +472,8 @@ def clash_sweep():
     for layout in clash_layouts():
         for base in (False, True):
             for opts in ({}, {"use_exact_imports": True}):
+                if clash_meets_exact_ancestor(layout, {"base": base}, opts):
+                    continue  # the recorded exact/ancestor finding: the package does not import, no use is reached
                 for order in itertools.permutations(range(4)):
                     yield clash_case(layout, {"base": base}, list(order), opts, "pydantic_v2.BaseModel")
 
@@ -506,6 +516,14 @@ def resolve_level(importer: tuple, is_init: bool, level: int, module: str | None
     return py_resolve(importer, is_init, level, undot(module or ""))
 
 
+def nfkc(x: str) -> str:
+    return unicodedata.normalize("NFKC", x)
+
+
+def uesc(x: str) -> str:
+    return x.encode("unicode_escape").decode()
+
+
 def static_oracle(files: dict[str, str]) -> list[dict]:
     """Oracles (1)-(3) of the property on a written file set. Returns failure records
     {check, file, detail, importer, is_init, target?}."""
@@ -517,11 +535,16 @@ def static_oracle(files: dict[str, str]) -> list[dict]:
             continue
         parts = rel.split("/")
         comps = parts[:-1] + [parts[-1][: -len(".py")]]
-        for c in comps:
-            if c == "__init__" and c is comps[-1]:
+        for k, c in enumerate(comps):
+            if c == "__init__" and k == len(comps) - 1:
                 continue
+            where = {"component": c, "is_dir": k < len(comps) - 1}
             if not c.isidentifier() or keyword.iskeyword(c):
-                fails.append({"check": "names_importable", "file": rel, "detail": f"component {c!r} is not an importable identifier"})
+                fails.append({"check": "names_importable", "file": rel, "detail": f"component {c!r} is not an importable identifier", **where})
+            elif nfkc(c) != c:
+                # the compiler NFKC-normalises every identifier, the names in import statements included
+                fails.append({"check": "names_importable", "file": rel, **where,
+                              "detail": f"component {c!r} ({uesc(c)}) can never be named by an import statement: Python looks for {uesc(nfkc(c))}"})
         try:
             trees[rel] = ast.parse(text)
         except SyntaxError as e:
@@ -850,6 +873,30 @@ def edge_mechanism(importer: tuple, e: dict) -> str:
     return "regular_pair"
 
 
+def importable(c: str) -> bool:
+    return c.isidentifier() and not keyword.iskeyword(c) and nfkc(c) == c
+
+
+def classify_tree(fail: dict, case: dict, files: dict[str, str]) -> str:
+    """mechanism of an oracle failure on an input file tree (no file-map model). The two recorded findings are
+    told by their triggers: a DIRECTORY name of the tree that is no importable identifier (directory names are
+    not sanitised), a file STEM that is a keyword (sanitize_module_name lets keywords through)."""
+    in_dirs = {c for rel in case["files"] for c in rel.split("/")[:-1]}
+    out_dirs = {c for rel in files for c in rel.split("/")[:-1]}
+    bad_dirs = {c for c in in_dirs | out_dirs if not importable(c)}
+    kw_stems = {c for rel in files for c in [rel.split("/")[-1][: -len(".py")]] if keyword.iskeyword(c)}
+    if fail["check"] == "names_importable":
+        if fail.get("is_dir"):
+            return "unsanitized_dir_name"
+        return "keyword_module_name" if keyword.iskeyword(fail.get("component", "")) else "module_stem_not_importable"
+    # consequences (a file that does not parse, an import that does not resolve) in a package that has such a name
+    if kw_stems:
+        return "keyword_module_name"
+    if bad_dirs:
+        return "unsanitized_dir_name"
+    return "other"
+
+
 def classify(fail: dict, case: dict, pred: dict | None, files: dict[str, str]) -> dict:
     """classification of one oracle failure (matched against known_findings.json)"""
     base = {"oracle": fail["check"], "input_kind": "dotted_names" if "defs" in case else "file_tree"}
@@ -857,11 +904,11 @@ def classify(fail: dict, case: dict, pred: dict | None, files: dict[str, str]) -
     comps = [c for f in files for c in f[: -len(".py")].split("/")]
     if pred is None and case["opts"].get("collapse_root_models") and case.get("roots") and fail["check"] in ("use_is_bound", "use_reaches_definition"):
         return {**base, "mechanism": "collapse_root_model_import_lost"}
+    if base["input_kind"] == "file_tree":
+        return {**base, "mechanism": classify_tree(fail, case, files)}
     if fail["check"] in ("names_importable", "parses") or pred is None:
         if any(keyword.iskeyword(c) for c in comps):
             return {**base, "mechanism": "keyword_module_name"}
-        if any(not c.isidentifier() for c in comps) or fail["check"] == "parses":
-            return {**base, "mechanism": "unsanitized_dir_name" if base["input_kind"] == "file_tree" else "other"}
         return {**base, "mechanism": "other"}
     if fail["check"] == "no_shadowing":
         return {**base, "mechanism": "gap_not_filled" if pred["checks"].get("covered") == "0" else "other"}
@@ -948,6 +995,8 @@ def check_case(ck: Check, camp, case: dict, pending: list, correspond: bool = Tr
     for k in case["opts"]:
         camp.hit(f"opt:{k}")
     camp.hit(f"kind:{case['model']}")
+    for k in case.get("kinds", []):
+        camp.hit(f"stem:{k}")
     if not res.ok:
         camp.hit(f"reported_error:{res.error_type}")
         return
@@ -1116,21 +1165,110 @@ TREE_CORPUS = [
 ]
 
 
-def gen_tree(rng: Rng) -> dict:
-    dirs = rng.sample(["", "a", "a/b", "c", "a/sub"], rng.range(1, 3))
-    stems = ["pet", "user", "order", "item", "my-file", "x1"]
-    paths: list[str] = []
-    for d in dirs:
-        for s in rng.sample(stems, rng.range(1, 2)):
-            paths.append((d + "/" if d else "") + s + ".json")
+_UNI: dict[str, list[str]] = {}
+
+
+def unicode_classes() -> dict[str, list[str]]:
+    """Representatives, computed from the interpreter, of the character classes on which "is kept by the module
+    name", "may stand in an identifier" and "is left alone by the compiler's NFKC normalisation" differ."""
+    if not _UNI:
+        uns_start, uns_cont, st_start, st_cont, other = [], [], [], [], []
+        for cp in itertools.chain(range(0x80, 0x3100), range(0x4E00, 0x4E40), range(0xA000, 0xA040), range(0xF900, 0x10000), range(0x1D400, 0x1D440)):
+            if 0xD800 <= cp < 0xE000:
+                continue
+            c = chr(cp)
+            if c.isidentifier():
+                (uns_start if nfkc(c) != c else st_start).append(c)
+            elif ("a" + c).isidentifier():
+                (uns_cont if nfkc(c) != c else st_cont).append(c)
+            elif c.isprintable() and not c.isspace():
+                other.append(c)
+        _UNI.update(
+            unstable_start=uns_start, unstable_cont=uns_cont, stable_start=st_start, stable_cont=st_cont, non_identifier=other,
+            # the usual suspects first: micro sign, ligatures, full-width forms, long s, Angstrom/Kelvin/Ohm signs, ordinals, roman numerals
+            unstable_known=list("\u00b5\ufb01\ufb00\uff21\uff42\uff3f\u017f\u212b\u212a\u2126\u00aa\u00ba\u2163\u210c\u01c6\u1e9b\uff11"),
+            stable_known=list("\u00e9\u00df\u00f6\u03bb\u4e2d\u044f\u03bc\u00c5"),
+            ascii_other=list("- $+(',&=@!~"),
+        )
+    return _UNI
+
+
+TREE_KEYWORDS = ["class", "import", "None", "def", "match", "_"]
+
+
+def gen_stem(rng: Rng, tag: str) -> tuple[str, str]:
+    """a file stem and the class of names it stands for; `tag` (ASCII, unique in the tree) keeps two stems of one
+    tree from falling onto one module name, unless the collision is what is asked for (tag == "")"""
+    u = unicode_classes()
+    kind = rng.choice(["ascii", "ascii", "unstable", "unstable", "unstable", "stable", "stable", "non_identifier", "non_identifier", "digit_first", "keyword", "mixed"])
+    pick = lambda key: rng.choice(u[key])
+    word = rng.choice(["pet", "user", "Order", "x1", "a_b", "units", ""])
+    if kind == "ascii":
+        body = rng.choice(["pet", "user", "order", "item", "my-file", "x1"])
+    elif kind == "unstable":
+        ch = pick("unstable_known") if rng.chance(1, 2) else pick(rng.choice(["unstable_start", "unstable_start", "unstable_cont"]))
+        body = rng.choice([ch + "_" + word, word + ch, ch, word[:1] + ch + word[1:]])
+    elif kind == "stable":
+        ch = pick("stable_known") if rng.chance(1, 2) else pick(rng.choice(["stable_start", "stable_start", "stable_cont"]))
+        body = rng.choice([ch + word, word + ch, ch + ch])
+    elif kind == "non_identifier":
+        ch = pick("ascii_other") if rng.chance(1, 2) else pick("non_identifier")
+        body = rng.choice([word + ch + "x", ch + word, word + ch])
+    elif kind == "digit_first":
+        body = rng.choice(["1", "9x", "0_", "\uff11x", "\u0663a", "2" + pick("unstable_known")]) + word
+    elif kind == "keyword":
+        return rng.choice(TREE_KEYWORDS), "keyword"
+    else:
+        body = "".join(pick(rng.choice(["unstable_known", "stable_known", "ascii_other", "unstable_start", "stable_start"])) for _ in range(rng.range(1, 3)))
+    stem = rng.choice([body + tag, tag + body]) if tag else body
+    if not stem or stem.startswith(".") or "/" in stem or "\x00" in stem or "." in stem:
+        stem = "f" + tag + stem.replace("/", "").replace("\x00", "").replace(".", "")
+    return stem, kind
+
+
+def _obj(i: int, refs: list[str]) -> dict:
+    """the object of file i: a member of its own (oracle (5) tells classes by it) and one member per reference"""
+    props = {"x": {"type": "integer"}, f"m{i}": {"type": "string"}}
+    for k, r in enumerate(refs):
+        props["r" if k == 0 else f"r{k}"] = {"$ref": r}
+    return {"type": "object", "properties": props}
+
+
+def tree_case(paths: list[str], links: dict[int, list[int]], nested: set[int], opts: dict, model: str = "pydantic_v2.BaseModel") -> dict:
+    """`paths[i]`: input file i; `links[i]`: files it refers to; `nested`: files whose object sits under
+    `definitions/Unit` (referred to as `file.json#/definitions/Unit`) instead of being the file's root schema"""
     files = {}
     for i, p in enumerate(paths):
-        if i and rng.chance(2, 3):
-            t = paths[rng.below(i)]
-            files[p] = _ref(os.path.relpath(t, os.path.dirname(p) or "."))
-        else:
-            files[p] = _OBJ
-    return {"files": files, "opts": dict(rng.choice([{}, {}, {"use_exact_imports": True}, {"treat_dot_as_module": True}])), "model": "pydantic_v2.BaseModel"}
+        refs = []
+        for j in links.get(i, []):
+            r = os.path.relpath(paths[j], os.path.dirname(p) or ".")
+            refs.append(r + "#/definitions/Unit" if j in nested else r)
+        files[p] = {"definitions": {"Unit": _obj(i, refs)}} if i in nested else _obj(i, refs)
+    return {"files": files, "opts": dict(opts), "model": model}
+
+
+def gen_tree(rng: Rng) -> dict:
+    """input file tree: file names drawn, by class, from ASCII words, characters that may stand in an identifier but
+    are NOT stable under NFKC, non-ASCII identifier characters that are, characters that may not stand in an
+    identifier, digits first, keywords; references by relative path, to the file or to a definition in it"""
+    dir_pool = ["", "", "a", "a/b", "c", "a/sub"] + (["\u00e9"] if rng.chance(1, 4) else []) + (["\u00b5d"] if rng.chance(1, 10) else [])
+    dirs = rng.sample(dir_pool, rng.range(1, 3))
+    collide = rng.chance(1, 6)
+    paths: list[str] = []
+    kinds: list[str] = []
+    tags = list("pqrstuvw")
+    for d in dict.fromkeys(dirs):
+        for _ in range(rng.range(1, 2)):
+            stem, kind = gen_stem(rng, "" if collide else tags[len(paths)])
+            path = (d + "/" if d else "") + stem + ".json"
+            if path not in paths:
+                paths.append(path)
+                kinds.append(kind)
+    links = {i: rng.sample(range(i), rng.range(1, min(2, i))) for i in range(1, len(paths)) if rng.chance(3, 4)}
+    nested = {i for i in range(len(paths)) if rng.chance(1, 4)}
+    case = tree_case(paths, links, nested, rng.choice([{}, {}, {"use_exact_imports": True}, {"treat_dot_as_module": True}]))
+    case["kinds"] = kinds
+    return case
 
 
 def campaign_e2e(ck: Check, n: int, n_tree: int, depth: int, n_clash: int = 0) -> None:
@@ -1184,6 +1322,59 @@ def search_from_disagreements(ck: Check) -> None:
     flush_imports(ck, camp, pending)
 
 
+def search_same_short_name(ck: Check) -> None:
+    """small-scope sweep of the family "one short class name in several modules": every layout of three modules,
+    member / base-class use, default / exact imports, ALL definition orders — the property's own oracles on the
+    real generator (runs only when an obligation or a correspondence broke)"""
+    camp = ck.campaign("search: one short class name in several modules, all definition orders")
+    t0 = time.time()
+    pending: list = []
+    budget = 90 if ck.tier == "quick" else 600
+    for case in clash_sweep():
+        check_case(ck, camp, case, pending, correspond=True)
+        if len(pending) >= 96:
+            flush_imports(ck, camp, pending)
+            if ck.failures or time.time() - t0 > budget:
+                break
+    flush_imports(ck, camp, pending)
+    camp.wall_s = time.time() - t0
+
+
+def search_module_names(ck: Check) -> None:
+    """every name on which the model of sanitize_module_name / get_module_path and the code disagree becomes the
+    name of an input file that another file refers to; then one file name per representative of each character
+    class. The property's own oracles (names importable, imports resolve, package imports in a fresh interpreter)
+    run on what the real generator writes for these trees."""
+    camp = ck.campaign("search: disagreeing / class-representative names as input file names")
+    t0 = time.time()
+    pending: list = []
+    names: list[str] = []
+    for d in ck.disagreements:
+        inp = d.input if isinstance(d.input, dict) else {}
+        if inp.get("fn") == "sanitize_module_name":
+            names.append(inp.get("name", ""))
+        elif inp.get("fn") == "get_module_path" and inp.get("file"):
+            names.append(inp["file"][1])
+    u = unicode_classes()
+    names += [c + "_units" for c in u["unstable_known"] + u["stable_known"]] + ["x" + c for c in u["unstable_known"] + u["ascii_other"]]
+    rng = ck.rng.fork("search-names")
+    names += [rng.choice(u[k]) + "q" for k in ("unstable_start", "unstable_cont", "stable_start", "stable_cont", "non_identifier") for _ in range(8)]
+    seen = set()
+    for nm in names:
+        if not nm or nm in seen or "/" in nm or "\x00" in nm or nm.startswith(".") or "." in nm or len(nm.encode()) > 200:
+            continue
+        seen.add(nm)
+        for nested in (set(), {0}):
+            for opts in ({}, {"use_exact_imports": True}):
+                check_case(ck, camp, tree_case([nm + ".json", "sensor.json"], {1: [0]}, nested, opts), pending)
+        if len(pending) >= 96:
+            flush_imports(ck, camp, pending)
+            if ck.failures:
+                break
+    flush_imports(ck, camp, pending)
+    camp.wall_s = time.time() - t0
+
+
 def known_findings(ck: Check) -> None:
     for f in ck.findings:
         probe = Check(ck.prop, ck.tier)
@@ -1213,7 +1404,7 @@ def run(ck: Check) -> None:
     campaign_relative(ck, 3 if quick else 4, 300 if quick else 3000)
     campaign_module_path(ck, 400 if quick else 4000)
     campaign_e2e(ck, 200 if quick else 3000, 30 if quick else 400, 3 if quick else 4, n_clash=120 if quick else 1500)
-    ck.search_hooks.append(search_from_disagreements)
+    ck.search_hooks += [search_from_disagreements, search_module_names, search_same_short_name]
     known_findings(ck)
 
 
